@@ -77,6 +77,24 @@ class Ctx:
         self.count("static_context_mirrored_calls")
         self.check(r2.t == r.t and r2.ill == 0 and r2.err == 0, "%s:static_context_mirror:%s" % (op, "illegal_callback" if r2.ill else "reply_differs"),
                    "full context: %s | static copy: %s ill=%d" % (" ".join(r.t)[:200], " ".join(r2.t)[:200], r2.ill), config)
+    def _mirror_misaligned(self, s, op, args, config, r):
+        """the same call with every argument / output block placed K bytes past a 16-byte boundary: byte-array arguments carry no
+        alignment requirement, so the reply (outputs and wiped buffers included) must be identical"""
+        k = self.rng.choice((1, 2, 3, 4, 5, 6, 7, 9, 12))
+        try: r2 = s.call(op, *args, "!misalign=%d" % k)
+        except ShimCrash as e:
+            self.fail("%s:%s:misaligned_buffers:crash:%s" % (self.prop, op, e.kind), e.report[-3000:], cmds=e.history, config=config); return
+        self.count("misaligned_buffer_mirrored_calls")
+        self.check(r2.t == r.t and r2.ill == r.ill and r2.err == r.err, "%s:misaligned_buffers:reply_differs" % op,
+                   "aligned: %s | buffers at +%d: %s" % (" ".join(r.t)[:300], k, " ".join(r2.t)[:300]), config)
+    def _misalign_ok(self, op):
+        # only operations whose pointer arguments are byte arrays or opaque unsigned-char-array objects (no size_t / uint64 members)
+        if not hasattr(self, "_mis_ops"):
+            try:
+                from props import c20
+                self._mis_ops = set(o for o in c20.OP_API if o not in c20.INTERNAL and not o.startswith(("surj_", "wl_", "bppp_", "ctx_", "rangeproof_", "pubkey_sort", "pubkey_combine", "musig_pubkey_agg", "musig_nonce_agg", "musig_partial_sig_agg", "halfagg_")))
+            except Exception: self._mis_ops = set()
+        return op in self._mis_ops
     def _mirror_alt(self, s, op, args, config, r):
         """results depend only on arguments: the same call on a second context (created separately, randomized, with a replaced but
         correct SHA-256 compression function) must give the identical reply"""
@@ -100,6 +118,11 @@ class Ctx:
         """returns Result, or None if the shim died (recorded as a violation). ill: 0 = callbacks forbidden,
         1 = illegal callback allowed, 2 = illegal callback required"""
         s = self.sh(config)
+        if c is None and ill == 0 and self.rng.random() < 0.02 and self._misalign_ok(op) and not any(isinstance(a, str) and a.startswith("!") for a in args):
+            try:
+                r0 = s.call(op, *args, ctx=None)
+                if not r0.ill and not r0.err: self._mirror_misaligned(s, op, args, config, r0)
+            except ShimCrash: pass
         if c is None and ill == 0 and not op.startswith(("ctx_", "fork_")) and op not in ("selftest", "ill_msg") and self.rng.random() < 0.015:
             try:
                 r0 = s.call(op, *args, ctx=None)
@@ -194,6 +217,30 @@ def _shard_entry(a):
     except Exception:
         r = ctx.result(); r["harness_error"] = traceback.format_exc(); return r
     return ctx.result()
+
+def memcheck_replay(ctx, lines, cls):
+    """replays shim command lines on the sanitizer-free VERIFY build (config vgv) under valgrind memcheck; any report (a branch or address
+    depending on uninitialised memory, an invalid read / write) or a dying process is recorded as a violation of ctx.prop"""
+    import subprocess, tempfile
+    path = build.build("vgv", ctx.repo)
+    tmpd = os.path.join(build.CACHE, "tmp"); os.makedirs(tmpd, exist_ok=True)
+    with tempfile.NamedTemporaryFile("w", dir=tmpd, suffix=".vgscript", delete=False) as f: f.write("\n".join(lines) + "\n"); script = f.name
+    try:
+        with open(script) as fin:
+            r = subprocess.run(["valgrind", "-q", "--error-exitcode=0", "--track-origins=no", path], stdin=fin, capture_output=True, text=True, timeout=2400)
+    except subprocess.TimeoutExpired:
+        raise Inconclusive("memcheck replay timed out")
+    finally:
+        os.unlink(script)
+    replies = [l for l in r.stdout.splitlines() if l.startswith(("ok", "ERR"))]
+    ctx.bulk("memcheck_replay", cls, len(replies), "vgv:%s:%d" % (cls, ctx.seed)); ctx.count("memcheck_replayed_commands", len(replies))
+    nrep = len([l for l in r.stderr.splitlines() if "uninitialised" in l or "Invalid read" in l or "Invalid write" in l])
+    ctx.count("memcheck_reports", nrep)
+    if nrep or r.returncode != 0 or len(replies) < len(lines):
+        first = r.stderr[:3000]
+        fr = re.findall(r"(?:at|by) 0x[0-9A-F]+: (\S+)", first)[:3]
+        ctx.fail("%s:memcheck:%s:%s" % (ctx.prop, "report" if nrep else "process_died", "/".join(fr[:2]) if fr else "noframes"),
+                 "replayed %d of %d commands, rc=%d, %d memcheck reports\n%s" % (len(replies), len(lines), r.returncode, nrep, first), cmds=lines[max(0, len(replies) - 3):len(replies) + 1], config="vgv")
 
 def load_known():
     try:
